@@ -44,6 +44,17 @@ type c12Canon struct {
 
 func runC12(r *core.Run) {
 	firstCallClause(r, "sequtil.ReverseComplement", "sequtil.CanonicalSubsequences")
+	askedAgain(r, []againFunc{
+		{"ReverseComplement", func(in []byte) string { return string(sequtil.ReverseComplement([]byte("x"), in)) }},
+		{"ReverseComplementString", func(in []byte) string { return sequtil.ReverseComplementString(string(in)) }},
+		{"CanonicalSubsequences(k=2)", func(in []byte) string {
+			var out []byte
+			for km := range sequtil.CanonicalSubsequences(in, 2) {
+				out = append(append(out, km...), ' ')
+			}
+			return string(out)
+		}},
+	}, againInputs([]string{"ACG", "acgtnACGTN"}, "", "ACGTNacgtn", "NNNNnnnn"))
 	racePass(r, "race-sequtil", "ReverseComplement(String), DNATo2Bit/From2Bit, Translate(ReadingFrames), CanonicalSubsequences, AminoName on one shared src")
 
 	L := core.Pick(r, 4, 7)
@@ -311,6 +322,21 @@ func runC12(r *core.Run) {
 		genDstCases([]string{"", "A", "n", "AACTTGGGn", "acgtnNACGTTTgacN", "ACXG", "\x00", "AC\x00", "ACG\xff"}),
 		checkDstContract("ReverseComplement", sequtil.ReverseComplement, ref.RevComp))
 
+	checkRevLong := func(c c12Seq) core.Outcome {
+		src := c.Seq.B()
+		dst := dstVariants()[c.Dst]
+		dstCopy := bytes.Clone(dst)
+		want, _ := ref.RevComp(src)
+		var got []byte
+		var gotS string
+		if p := catch(func() { got = sequtil.ReverseComplement(dst, src); gotS = sequtil.ReverseComplementString(string(src)) }); p != "" {
+			return core.Failf("ReverseComplement of a sequence of length %d panicked: %s", len(src), p)
+		}
+		if !bytes.Equal(got, append(bytes.Clone(dstCopy), want...)) || gotS != string(want) || !bytes.Equal(src, c.Seq.B()) {
+			return core.Failf("ReverseComplement of a sequence of length %d (dst variant %d) is wrong: %q...", len(src), c.Dst, trunc(string(got), 60))
+		}
+		return core.Outcome{Class: "ok", Nontrivial: true, Evals: 2}
+	}
 	core.Clause(r, "revcomp-long", core.Opts{Rule: "position-dependent sequences over the 10-letter alphabet of every length 0..300 and 1000, 4095..4097, 65535..65537 x 3 dst variants; non-trivial = all"},
 		func(emit func(c12Seq) bool) {
 			var lens []int
@@ -330,21 +356,29 @@ func runC12(r *core.Run) {
 				}
 			}
 		},
-		func(c c12Seq) core.Outcome {
-			src := c.Seq.B()
-			dst := dstVariants()[c.Dst]
-			dstCopy := bytes.Clone(dst)
-			want, _ := ref.RevComp(src)
-			var got []byte
-			var gotS string
-			if p := catch(func() { got = sequtil.ReverseComplement(dst, src); gotS = sequtil.ReverseComplementString(string(src)) }); p != "" {
-				return core.Failf("ReverseComplement of a sequence of length %d panicked: %s", len(src), p)
+		checkRevLong)
+
+	// Runs of one letter (or of a letter and its complement) in mixed case: the complement of such a run
+	// looks like the run itself, so "nothing to do here" is a tempting shortcut - but the CASE pattern is
+	// reversed too. Every case pattern of every such run up to a length beyond any word or block size.
+	RL := core.Pick(r, 12, 16)
+	r.Bound("revcomp-runs", fmt.Sprintf("every string over {N,n}, over {A,t}, over {a,T}, over {C,g} and over {c,G} of length 1..%d, alone and between AC and GT; dst nil", RL))
+	core.Clause(r, "revcomp-runs", core.Opts{Rule: "runs of a letter that is its own complement (N/n) or of a letter and the other case of its complement, in every case pattern: ReverseComplement and ReverseComplementString give the reversed, complemented, case-preserving copy; non-trivial = all"},
+		func(emit func(c12Seq) bool) {
+			for _, alpha := range []string{"Nn", "At", "aT", "Cg", "cG"} {
+				for l := 1; l <= RL; l++ {
+					for m := 0; m < 1<<l; m++ {
+						b := make([]byte, l)
+						for i := range b {
+							b[i] = alpha[m>>i&1]
+						}
+						if !emit(c12Seq{core.S(b), 0}) || !emit(c12Seq{core.S("AC" + string(b) + "GT"), 0}) {
+							return
+						}
+					}
+				}
 			}
-			if !bytes.Equal(got, append(bytes.Clone(dstCopy), want...)) || gotS != string(want) || !bytes.Equal(src, c.Seq.B()) {
-				return core.Failf("ReverseComplement of a sequence of length %d (dst variant %d) is wrong: %q...", len(src), c.Dst, trunc(string(got), 60))
-			}
-			return core.Outcome{Class: "ok", Nontrivial: true, Evals: 2}
-		})
+		}, checkRevLong)
 
 	core.Clause(r, "canonical-kmers-long", core.Opts{Rule: "position-dependent sequences of length 40, 67, 130 (upper, lower and N-containing) x every k in 1..70: count, each item vs reference, strand independence; non-trivial = at least 2 items"},
 		func(emit func(c12Canon) bool) {
